@@ -68,8 +68,10 @@ def dv_abs_smooth_complex(x, x_deriv, delta_x):
         else:
             return 0.5 * (x[0]**2 / delta_x + delta_x), x[0] * x_deriv / delta_x
 
-    y_deriv = x * x_deriv / delta_x
-    y = 0.5 * (x[0]**2 / delta_x + delta_x)
+    # x_deriv may have one more (trailing) dimension than x.
+    x_bc = x[..., np.newaxis] if x_deriv.ndim > x.ndim else x
+    y_deriv = x_bc * x_deriv / delta_x
+    y = 0.5 * (x**2 / delta_x + delta_x)
     idx_neg = np.where(x <= -delta_x)
     idx_pos = np.where(x >= delta_x)
 
